@@ -231,6 +231,7 @@ def cases(tier, seed=0):
                    budget_s=170, timeout_ms=60000, descr='many-to-many, two periodic directions'))
     for pbc in ((True, True, True), (True, False, True), (False, True, False)) if tier == 'quick' else PBCS:
         if sum(pbc) == 3: continue          # decided through h_radius_lemma + img_TTT_* (see DESIGN.md C02)
+        if sum(pbc) == 0: continue          # no periodic direction: there is no image to compare with (an empty case would be vacuous)
         npar = 1
         for part in range(npar):
             cs.append(Case(f'nearest_{pstr(pbc)}_{part}', h_nearest(pbc, part, npar), bind=BIND, kernels=KER, maxcases=32, budget_s=170, timeout_ms=30000,
